@@ -535,7 +535,23 @@ func ruleErrStructure(r *Run) {
 	// *gqlerror.Error → Error keeps message, extensions, path, locations
 	if fe != nil {
 		n := 0
-		for _, ins := range allInstrs(fe) {
+		var conv []ssa.Instruction
+		for g := range r.P.CG.Reachable([]*ssa.Function{fe}, nil) {
+			if topFn(g).Pkg == nil || topFn(g).Pkg != topFn(fe).Pkg {
+				continue
+			}
+			// the conversion of a parser error: FormatError itself, or a helper that takes one
+			takesParserErr := g == fe
+			for _, p := range g.Params {
+				if strings.HasSuffix(namedOf(p.Type()), "gqlparser/v2/gqlerror.Error") {
+					takesParserErr = true
+				}
+			}
+			if takesParserErr {
+				conv = append(conv, allInstrs(g)...)
+			}
+		}
+		for _, ins := range conv {
 			st, ok := ins.(*ssa.Store)
 			if !ok {
 				continue
